@@ -123,6 +123,9 @@ func (a *SimApp) NewTransport(c context.Context, actorBoxIRI *url.URL, gofedAgen
 		return nil, errInjected
 	}
 	a.ev("NewTransport", ustr(actorBoxIRI), gofedAgent, "", false)
+	if a.srv.Spec.Transport == "httpsig" {
+		return newRealTransport(a.s, a.srv, ustr(actorBoxIRI)), nil
+	}
 	return &SimTransport{s: a.s, srv: a.srv, box: ustr(actorBoxIRI)}, nil
 }
 
